@@ -306,6 +306,31 @@ def stepC10 (d : DSt) (op : String) (got : String) : StepResult DSt :=
       rxCommon d crash got id info info.sent.wire bare [bare.delivery]
         (d.judgeRx && bare.admissible && outerOk bare.wire) false s!"rxb {id}" info.handed
     | none => { st := d, expected := some "skip" }
+  | ["rxbi", id] =>
+    -- the bare packet is the INITIAL frame of a new face (UDP listener: first datagram of a new
+    -- peer, `LinkService.Run(recvBuf[:n])`, buffer re-used at once): handled like any bare arrival
+    if !d.active then { st := d, expected := some "skip" } else
+    match d.msgs.find? (·.id = id) with
+    | some info =>
+      let bare : Sent := { wire := info.sent.wire }
+      let r := rxCommon d crash got id info info.sent.wire bare [bare.delivery]
+        (d.judgeRx && bare.admissible && outerOk bare.wire) false s!"rxbi {id}" info.handed
+      { r with cov := r.cov ++ ["rx-initial-bare"] }
+    | none => { st := d, expected := some "skip" }
+  | ["rxi", id] =>
+    -- the only frame of a one-frame message as the initial frame of a new face
+    if !d.active then { st := d, expected := some "skip" } else
+    match d.msgs.find? (·.id = id) with
+    | some info =>
+      match info.frames with
+      | [frame] =>
+        let dup := info.handed.contains 0
+        let r := rxCommon d crash got id info frame info.sent
+          (expectedAt info.sent 1 info.handed 0)
+          (d.judgeRx && info.judged && !dup) dup s!"rxi {id}" (0 :: info.handed)
+        { r with cov := r.cov ++ ["rx-initial-lp"] }
+      | _ => { st := d, expected := some "skip" }
+    | none => { st := d, expected := some "skip" }
   | ["end"] =>
     if !d.active then { st := d, expected := some "skip" } else
     let toks := (got.splitOn " ").filter (· ≠ "")
